@@ -223,10 +223,9 @@ func julianDayNumber(year, month, day int) int64 {
 //
 // WARNING: doing this around daylight savings changes may be problematic
 func (d SuDate) MinusMs(other SuDate) int64 {
-	if d.date == other.date {
-		return d.timeAsMs() - other.timeAsMs()
-	}
-	return d.UnixMilli() - other.UnixMilli()
+	// calendar difference, independent of the local time zone (daylight saving)
+	return int64(d.MinusDays(other))*(24*60*60*1000) +
+		d.timeAsMs() - other.timeAsMs()
 }
 
 func (d SuDate) timeAsMs() int64 {
